@@ -39,7 +39,7 @@ pub fn run(rep: &mut Rep) {
         walk_world_shardless(rep, "miri-walk", base, 3, 25, &wa);
         return;
     }
-    let depth = if rep.quick() { 5 } else { 6 };
+    let depth = if rep.quick() { 5 } else { 7 };
     rep.note(&format!("crash points: drop(context) offered at every step of every path of <= {depth} actions over {{create (unpolled) / start pub1/pub2/sub/ping, first poll, acks, hold/release the QoS 2 future, stall/release the writer (queued-but-unsent), inbound PUBLISH to a stream, take / hold / release stream}}; after the drop: every pending future and stream, and operations started afterwards, are checked under the wake-only executor"));
     let seed = rep.seed;
     explore_world(rep, "exh", depth, &move || World::boot(WorldCfg { seed, ..Default::default() }), &a);
@@ -47,7 +47,7 @@ pub fn run(rep: &mut Rep) {
     wa.max_ops = 30;
     wa.max_conc = 6;
     wa.max_inbound = 30;
-    let walks = if rep.quick() { 400 } else { 6000 };
+    let walks = if rep.quick() { 400 } else { 40000 };
     walk_world(rep, "walk", walks, 60, &|s| World::boot(WorldCfg { seed: s, order: (s % 4) as u8, ..Default::default() }), &wa);
 }
 
